@@ -17,7 +17,7 @@ LEVEL_TEXT = (
     "or horizon. Safety on every step: a waiter starts only after each awaited name was produced in an earlier step, never in a producer's step, "
     "and again only after a new production. Liveness at every quiescent completed state: no waiter is left owed a run."
 )
-LEVEL_NOTE = "liveness is judged only at terminal quiescent states of completed runs and only when the waiter's other conditions (activation, inputs, staleness by versions read from the final state) hold"
+LEVEL_NOTE = "liveness is judged only at terminal quiescent states of completed runs and only when the waiter's other conditions (activation, inputs, staleness by versions read from the final state) hold; every program on both construction paths; cached waiter / producer runs on one cache; resumed-interrupt producers; exact signal-synchronised loops"
 RULE = "programs x runners x all env answers x async completion orders within the bound; states = abstract scheduler states incl. the monitor's view; transitions = supersteps"
 ASSUMPTIONS = ["a 'production' is the completion of a node that lists the name as output or emit (monitor's own view from the call log)", "names supplied as run inputs count as produced before step 0"]
 
